@@ -53,3 +53,10 @@ MUTANTS += [
     ("c14-binary-forgets-right-variables", "C14", B + "binary_expression.py", "variable_names = left._variable_names.union(right._variable_names)", "variable_names = left._variable_names", "Minus", True),
     ("c14-number-for-two-variables", "C14", B + "expression.py", "    elif variable_names_count == 0:\n        return \"whatever\"\n    else:\n        raise Exception(exception_message)", "    else:\n        return \"whatever\"", "Minus.at(number)", True),
 ]
+
+MUTANTS += [
+    ("c10-inplace-edit-in-reducer", "C10", E + "add.py", "        return Add(*non_zeros)", "        self._inners.clear()\n        self._inners.extend(non_zeros)\n        return Add(*non_zeros)", "frame-analysis", True),
+    ("c10-parameter-written-after-construction", "C10", E + "nth_power.py", "        if isinstance(self._inner, ex.NthPower):\n            return ex.NthPower(self._inner._inner, self.n * self._inner.n)", "        if isinstance(self._inner, ex.NthPower):\n            self._parameter = self.n * self._inner.n\n            return ex.NthPower(self._inner._inner, self._parameter)", "", True),
+    ("c10-eq-consults-memo", "C10", B + "unary_expression.py", "return (other.__class__ == self.__class__) and (other._inner == self._inner)", "return (other.__class__ == self.__class__) and (other._inner == self._inner) and (other._value == self._value)", "frame-analysis", True),
+    ("c10-constructor-aliases-caller-list", "C10", B + "n_ary_expression.py", "        self._inners = list(args)", "        self._inners = args", "", False),
+]
